@@ -55,8 +55,10 @@ inductive Obs
   /-- influxdb EncodeAll, jwilder EncodeAll, jwilder streaming Encoder (words); then the decodes
       by the influxdb (I) and jwilder (J) decoders: II IJ JI JJ TI TJ -/
   | s8b (i j t : Option (List Nat)) (decs : List (Option (List Nat)))
-  | codec (r : RT Vals)
-  | time (r : RT (List Nat))
+  /-- `ds`/`db`: both decoders on the batch encoder's output when it was handed a dirty, oversized
+      buffer to reuse (the result of an encoder must not depend on the buffer it is given) -/
+  | codec (r : RT Vals) (ds db : Option Vals)
+  | time (r : RT (List Nat)) (ds db : Option (List Nat))
   /-- `g`: the interface-typed `Values.Encode` produced the same block as the typed encoder;
       `sg`/`bg`: the interface-typed `DecodeBlock` on both blocks -/
   | block (r : RT (List Nat × Vals)) (g : Bool) (sg bg : Option (List Nat × Vals))
@@ -77,8 +79,8 @@ def holdsOn (op : Op) (o : Obs) : Bool :=
       i.isNone && j.isNone && t.isNone
     else
       i.isSome && j.isSome && t.isSome && decs.length == 6 && decs.all (· == some vs)
-  | .codec v, .codec r => roundTrips v r
-  | .time ts, .time r => roundTrips ts r
+  | .codec v, .codec r ds db => roundTrips v r && ds == some v && db == some v
+  | .time ts, .time r ds db => roundTrips ts r && ds == some ts && db == some ts
   | .block ts v, .block r g sg bg =>
     if ts.length != v.length then true      -- not a sequence of points
     else if ts.isEmpty then
